@@ -189,6 +189,8 @@ def gen_filter_bait(g, cfg):
             t["tags"] = g.pick(FILTER_TAGS)  # a single tag may be given as a string
         if g.coin(0.3):
             t["opname"] = g.pick([x["name"] for x in tasks if x is not t] + ["shared-op"])
+    if g.coin(0.3):
+        cfg["decoy"] = {"first": g.coin(0.6), "tags": {t["name"]: g.pick([None, g.sample(FILTER_TAGS, g.choose(3)), g.pick(FILTER_TAGS)]) for t in tasks}}
 
 
 def gen_filters(g, cfg):
